@@ -17,6 +17,7 @@ ADAPTATIONS = [
     "A4 crosshair.register_contract.get_contract swallows TypeError for unhashable callables",
     "A5 param._utils._find_pname returns None and param's logger gets a NullHandler (stack walking/logging only)",
     "A7 dict(mapping-or-pairs, **kw) with concrete keys builds a real dict (CrossHair's ShellMutableMap moves a re-assigned existing key to the end, which changes iteration order relative to CPython)",
+    "A8 math.trunc/floor/ceil of an object that is neither symbolic nor a plain number and implements __trunc__/__floor__/__ceil__ (rx) call that method directly; CrossHair would run the C function on a deep-realised copy of the object",
     "A6 PYTHONHASHSEED=0 and the search order is seeded from VERIF_SEED",
 ]
 
@@ -181,9 +182,31 @@ def _dict(arg=_DMISSING, **kwargs):
 
 _core._PATCH_REGISTRATIONS[dict] = _dict
 
-_core._PATCH_REGISTRATIONS[getattr] = _getattr
-_core._PATCH_REGISTRATIONS[hasattr] = _hasattr
-_core._PATCH_REGISTRATIONS[setattr] = _setattr
+# --- A8: math functions registered with deep realisation copy arbitrary objects; leave non-symbolic protocol objects alone
+import math as _math
+import crosshair.libimpl.mathlib as _ml
+
+
+def _plainish(x):
+    return _is_ch(x) or isinstance(x, (int, float, complex, str, bytes, tuple, list, dict, set, frozenset)) or x is None
+
+
+def _mk_math(fn, dunder):
+    def patched(x):
+        with NoTracing():
+            meth = None if _plainish(x) else getattr(type(x), dunder, None)
+            if meth is None:
+                x = _core.deep_realize(x)
+        if meth is not None:
+            return meth(x)               # what math.trunc/floor/ceil do for an object implementing the protocol; tracing stays on
+        return fn(x)                     # as CrossHair: the C function on the realised argument (called from the patch's own frame)
+    return patched
+
+
+for _name, _dunder in (('trunc', '__trunc__'), ('floor', '__floor__'), ('ceil', '__ceil__')):
+    _fn = getattr(_math, _name)
+    if _fn in _core._PATCH_REGISTRATIONS:
+        _core._PATCH_REGISTRATIONS[_fn] = _mk_math(_fn, _dunder)
 
 
 def selftest_a2():
